@@ -46,6 +46,16 @@ Theorem C08_sweep_centres_2site : forall n, sweep_centres_right true n = map (fu
 Proof. exact sweep_centres_right_2site. Qed.
 Print Assumptions C08_sweep_centres_2site.
 
+(* every eigen-solver branch of both optimisers (table regenerated from tn/gs.py eigh_iterative, mps/gs.py eigh_iterative /
+   eigh_direct and lib/davidson) asks for the algebraically smallest eigenpair(s): which = "SA", index 0 of an ascending
+   dense spectrum, or the package's Davidson with its default (lowest Ritz values) selection *)
+Theorem C08_solvers_request_smallest :
+  Forall (fun x => requests_smallest (snd x) = true) tree_solvers /\
+  Forall (fun x => requests_smallest (snd x) = true) chain_iter_solvers /\
+  requests_smallest chain_direct_solver = true.
+Proof. exact solvers_request_smallest_all. Qed.
+Print Assumptions C08_solvers_request_smallest.
+
 (* non-vacuity: a 5-site 2-site run of three sweeps makes 42 observations, 18 of them disk reads; a 1-site one 54 *)
 Example C08_sweeps_nonvacuous :
   length (obsl (optimize true 5 true 3 (fun _ => O))) = 42%nat /\
